@@ -193,13 +193,34 @@ func execute(p *Program, s *Sched, o execOpts) *Outcome {
 		if rec.Res.Note != "" && rec.Res.Note != "unsupported" {
 			return viol("sequential", "callback-note", rec.Res.Note)
 		}
-		if p.Tick {
-			if op.K == model.HAdvance {
-				m.Now = vs.NowNS - op.D // HAdvance adds D itself
-			}
-			m.At(opNows(op.K, rec.Nows))
+		if p.Tick && op.K == model.HAdvance {
+			m.Now = vs.NowNS - op.D // HAdvance adds D itself
 		}
-		if err := m.Step(&op, &out.Recs[len(out.Recs)-1].Res); err != nil {
+		var err error
+		if rd := clockReads(rec.Nows); p.Tick && len(rd) > 0 {
+			// try every (visibility read, stamping read) combination; commit the first that explains the result
+			err = fmt.Errorf("no combination tried")
+		search:
+			for _, lv := range rd {
+				for _, st := range rd {
+					c := m.Clone()
+					c.At([]int64{lv, st})
+					if e2 := c.Step(&op, &out.Recs[len(out.Recs)-1].Res); e2 == nil {
+						*m = *c
+						err = nil
+						break search
+					} else {
+						err = e2
+					}
+				}
+			}
+		} else {
+			if p.Tick {
+				m.At(nil)
+			}
+			err = m.Step(&op, &out.Recs[len(out.Recs)-1].Res)
+		}
+		if err != nil {
 			return viol("sequential", "prefix:"+op.K.String(), fmt.Sprintf("prefix op %s: %v", op.String(), err))
 		}
 	}
@@ -559,7 +580,7 @@ func buildHistory(p *Program, recs []Rec) ([]lin.Ev, string) {
 			} else {
 				ret = lin.Pending
 			}
-			ev := lin.Ev{Op: r.Op, Res: rp, Inv: r.Inv, Ret: ret, Thread: r.Thread, Nows: opNows(r.Op.K, r.Nows)}
+			ev := lin.Ev{Op: r.Op, Res: rp, Inv: r.Inv, Ret: ret, Thread: r.Thread, Reads: clockReads(r.Nows)}
 			if r.Op.K == model.CDelete || r.Op.K == model.CGetAndDelete {
 				ev.CBAmbig = callbackSwapOverlaps(recs, r)
 			}
@@ -594,20 +615,15 @@ func buildHistory(p *Program, recs []Rec) ([]lin.Ev, string) {
 	return evs, ""
 }
 
-// opNows maps the clock reads of a call to (instant that decides visibility, instant new
-// expirations are stamped with). Read-only getters re-check the CURRENT value under the lock
-// with a second read when the snapshot they loaded was expired, so their last read decides;
-// read-modify-write calls decide visibility first and stamp afterwards.
-func opNows(k model.Kind, reads []int64) []int64 {
-	if len(reads) == 0 {
-		return nil
+// clockReads returns the distinct instants a call read from the ticking clock (at most four: the
+// first two, a middle one and the last). Which read a call uses for which decision — visibility of
+// the entry it found, stamping of a new expiry — is an implementation detail the properties do not
+// pin, so the checker accepts any combination.
+func clockReads(reads []int64) []int64 {
+	if len(reads) <= 4 {
+		return reads
 	}
-	last := reads[len(reads)-1]
-	switch k {
-	case model.CGet, model.CGetExp, model.CGetTTL:
-		return []int64{last, last}
-	}
-	return []int64{reads[0], last}
+	return []int64{reads[0], reads[1], reads[len(reads)/2], reads[len(reads)-1]}
 }
 
 // callbackSwapOverlaps: a SetEvictedCallback of another thread overlaps r (C06: the call may use
